@@ -66,8 +66,59 @@ type c14Pairs struct {
 	globals   map[*types.Var]bool // []reflect.Value fields of env
 }
 
-func c14Canon(v ssa.Value) string {
+func c14Canon(v ssa.Value) string { return c14CanonD(v, 0) }
+
+// c14CopyOf: a local struct that is only ever assigned, as a whole and once, a copy of another holder
+// (`cl := call.cl`) denotes that holder; nil when the local is built or changed field by field.
+func c14CopyOf(al *ssa.Alloc) ssa.Value {
+	if al.Referrers() == nil {
+		return nil
+	}
+	var src ssa.Value
+	n := 0
+	for _, ref := range *al.Referrers() {
+		switch y := ref.(type) {
+		case *ssa.Store:
+			if y.Addr == ssa.Value(al) {
+				n++
+				src = y.Val
+			}
+		case *ssa.FieldAddr:
+			if y.Referrers() != nil {
+				for _, r2 := range *y.Referrers() {
+					if st, ok := r2.(*ssa.Store); ok && st.Addr == ssa.Value(y) {
+						return nil
+					}
+				}
+			}
+		case *ssa.MakeClosure:
+			return nil
+		}
+	}
+	if n != 1 {
+		return nil
+	}
+	switch s := src.(type) {
+	case *ssa.UnOp:
+		if s.Op == token.MUL {
+			return src
+		}
+	case *ssa.Field, *ssa.Phi:
+		return src
+	}
+	return nil
+}
+
+func c14CanonD(v ssa.Value, depth int) string {
+	if depth > 8 {
+		return "?" + v.Name()
+	}
+	c14Canon := func(v ssa.Value) string { return c14CanonD(v, depth+1) }
 	switch x := v.(type) {
+	case *ssa.Alloc:
+		if src := c14CopyOf(x); src != nil {
+			return c14Canon(src)
+		}
 	case *ssa.FieldAddr:
 		if fv := c10FieldVar(x); fv != nil {
 			return c14Canon(x.X) + "." + fv.Name()
@@ -78,6 +129,29 @@ func c14Canon(v ssa.Value) string {
 		}
 	case *ssa.ChangeType:
 		return c14Canon(x.X)
+	case *ssa.UnOp:
+		// a copy of a struct loaded from a field path / a local (`cl := call.cl`) denotes the same holder as
+		// the path it was read from
+		if x.Op == token.MUL {
+			switch x.X.(type) {
+			case *ssa.FieldAddr, *ssa.Alloc:
+				return c14Canon(x.X)
+			}
+		}
+	case *ssa.Phi:
+		// a phi whose edges all denote the same holder
+		same := ""
+		for i, e := range c10StripPhi(x) {
+			c := c14Canon(e)
+			if i > 0 && c != same {
+				same = ""
+				break
+			}
+			same = c
+		}
+		if same != "" {
+			return same
+		}
 	}
 	pn := ""
 	if in, ok := v.(interface{ Parent() *ssa.Function }); ok && in.Parent() != nil {
